@@ -259,7 +259,7 @@ def gen_cell_hash(fn):
     elts = hash_tuple(fn)
     out = []
     for e in elts:
-        t = src(e).replace(" ", "").replace("\n", "")
+        t = src(e).replace(" ", "").replace("\n", "").replace("'", '"')
         a = attr_of(e, "self")
         if a and a[1] in CELL_ATTR:
             out.append(a[1])
@@ -404,10 +404,15 @@ def translate(repo: Path):
     conj = [cell_eq_conjunct(e, params) for e in conj_list(only_return(eqi))]
     out.append("Definition gen_inc_eq (self other : cell) : bool :=\n  " + "\n  && ".join(conj) + ".\n")
     out.append(gen_cell_hash(find_method(C, "__hash__")))
-    if find_method(I, "__hash__", required=False) is not None:
-        raise Unsupported("IncrementalCell defines its own __hash__")
     # NB: defining __eq__ without __hash__ in a subclass sets __hash__ to None in Python
-    out.append(f"Definition inc_defines_eq_without_hash : bool := true.\n")
+    ih = find_method(I, "__hash__", required=False)
+    if ih is None:
+        out.append("Definition inc_hashable : bool := false.\n")
+    else:
+        t = src(only_return(ih)).replace(" ", "")
+        if t != "hash((super().__hash__(),self._prev_evaluation_date))":
+            bail(ih, "IncrementalCell.__hash__ has an unrecognised shape")
+        out.append("Definition inc_hashable : bool := true.\n")
     T = find_class(tri_t, "Triangle")
     ttxt, feats = gen_triangle(T)
     out.append(ttxt)
